@@ -153,6 +153,8 @@ type Sim struct {
 	Deadlock bool
 	states   map[uint64]struct{}
 	disk     *DiskState
+	atEnd    []func()
+	seq      int64
 	pausePts []pausePt
 	Pauses   []PauseRec
 	rng      *mrand.Rand
@@ -217,6 +219,9 @@ func Run(tape *Tape, cfg Config, body func(s *Sim)) *Result {
 	s.main = s.spawn(s.nodes[0], "main", func() { body(s) })
 	s.loop()
 	s.teardown()
+	for _, fn := range s.atEnd {
+		fn()
+	}
 	s.SimTime = time.Since(s.start)
 	return &Result{
 		Failure: s.failure, Inconcl: s.Inconcl, Infra: s.Infra, Steps: s.Steps,
@@ -1193,3 +1198,11 @@ func (s *Sim) GoForeign(n *Node, name string, fn func()) {
 	default:
 	}
 }
+
+// AtEnd registers fn to run after the run's tasks have been torn down (still
+// inside the bubble, on the scheduler goroutine; not a task).
+func (s *Sim) AtEnd(fn func()) { s.atEnd = append(s.atEnd, fn) }
+
+// NextSeq returns the next value of the run's global event sequence counter
+// (used to stamp invoke/return events of recorded histories).
+func (s *Sim) NextSeq() int64 { s.seq++; return s.seq }
